@@ -154,6 +154,7 @@ type sched struct {
 	cfg           Config
 	threads       []*thread
 	cur           *thread
+	runLen        int // consecutive default continuations of one thread at points where another was enabled
 	prefix        []int
 	choices       []int
 	points        []Point
@@ -261,6 +262,9 @@ func (s *sched) trace(format string, args ...any) {
 
 // pick chooses the next thread to run. Returns nil when no thread is enabled
 // (deadlock or termination) or when every enabled thread sleeps (s.blocked).
+// fairAfter: see pick (bounded unfairness).
+const fairAfter = 2000
+
 func (s *sched) pick() *thread {
 	var enabled []int
 	cur := s.cur
@@ -328,6 +332,24 @@ func (s *sched) pick() *thread {
 				s.blocked = true
 				return nil
 			}
+		}
+		// Bounded unfairness: a thread that has been continued fairAfter times in a row although another thread
+		// was enabled (a retry loop that only ends when somebody else makes progress) yields once to the next
+		// enabled thread. Any schedule is a schedule of the program; without this an unfair default schedule
+		// never ends and the whole program would have to be given up at the step guard.
+		if !fromPrefix && curEnabled && idx == 0 && len(enabled) > 1 {
+			s.runLen++
+			if s.runLen > fairAfter {
+				for i := 1; i < len(enabled); i++ {
+					if enabled[i]>>16 == 0 && !(s.cfg.Sleep && s.sleep[enabled[i]&0xffff]) {
+						idx = i
+						break
+					}
+				}
+				s.runLen = 0
+			}
+		} else {
+			s.runLen = 0
 		}
 		if len(enabled) > 1 {
 			var sl []int
